@@ -583,7 +583,7 @@ theorem killBlobber_frame13 {s s' : State} {i n : Nat} (h : killBlobber s i n fa
       · rfl
   · cases h
 
-theorem shutBlobber_frame13 {s s' : State} {i : Nat} (h : shutBlobber s i false = .ok s') (hl : isDead s i = false) :
+theorem shutBlobber_frame13 {s s' : State} {i n : Nat} (h : shutBlobber s i n false = .ok s') (hl : isDead s i = false) :
     Frame13 s s' := by
   unfold shutBlobber at h
   split at h
@@ -592,10 +592,13 @@ theorem shutBlobber_frame13 {s s' : State} {i : Nat} (h : shutBlobber s i false 
     rw [if_neg hd] at h
     ok_branches h
     all_goals (try contradiction)
-    refine ⟨rfl, rfl, fun x => ?_, fun x => rfl⟩
-    simp only [map_set_view]; split
-    · rename_i hx; subst hx; simp [hb]
-    · rfl
+    refine ⟨rfl, rfl, fun x => ?_, fun x => ?_⟩
+    · simp only [map_set_view]; split
+      · rename_i hx; subst hx; simp [hb]
+      · rfl
+    · simp only [map_set_view]; split
+      · rename_i hx; subst hx; simp [hsp]
+      · rfl
   · cases h
 
 /-- one allocation slot is rewritten; for every blobber both sides of each equality move by the same amount -/
